@@ -175,9 +175,18 @@ def run_case(ctx, mr, case):
                 sub = fsobj.opendir(f'{id0}/{id1}')
                 P.write_sdtitle_dir(sub, conts, title_id=tid, present=present, subdir=rel,
                                     sd_encrypt=lambda p, data: sd.sd_crypt(nk, '/' + p.lstrip('/'), data))
+                # a second ID1 directory (another SD card's data under the same console id), sorting before or after the real one, with
+                # the title directory present but empty: the title must be taken from the ID1 that was asked for
+                decoy = None
+                if rng.random() < 0.6:
+                    decoy = rng.choice(['0' * 32, 'f' * 32])
+                    if decoy != id1:
+                        fsobj.makedirs(f'{id0}/{decoy}/{rel}')
+                    else:
+                        decoy = None
                 try:
                     root = SDRoot(fsobj, sd_key=sd.movable_sed(rng, key16, rng.choice([0x10, 0x120, 0x140])))
-                    r = root.open_title('%016X' % tid)
+                    r = root.open_title('%016X' % tid, id1=id1) if decoy else root.open_title('%016X' % tid)
                 except Exception as ex:
                     ctx.diff('oracle', 'sdenc-open-raises', case, 'a reader', pyenv.errname(ex) + ': ' + str(ex)[:80], 'SD-encrypted title rejected')
                     return
